@@ -9,4 +9,9 @@ CHECKS = {
         "text": "Decides, for every path of every function of ps_endpointer.c, the structural clauses that make returned frames exact in-order excerpts with a coherent clock: ring indices in [0,maxlen) at every use, every copy inside the allocation, head advance <-> qstart_time pairing, one push and one timestamp tick per frame, in_speech written only under the strict threshold tests with speech_start/speech_end taken from the queue clock, counter index set = queued frames, linearize moves frames and flags identically. Does not decide the numeric meaning of the thresholds or timestamp values.",
         "design_ref": "DESIGN.md section 4, C15",
     },
+    "C20": {
+        "technique": "custom static analysis over clang AST+CFG facts: path pairing (exactly-once counters), struct-copy completeness against the record's field list, release-then-read typestate on locals, guard dominance (length before bytes, head-empty invariant), sibling agreement of wrappers and traversals",
+        "text": "Decides on every path of hash_table.c the bookkeeping and link-surgery clauses a chained map needs: inuse changes exactly once per inserted / deleted key and never otherwise; the head slot refilled from its successor copies every field of hash_entry_t before the successor is released; no node is read after release and every release is preceded by its unlink; a head key is cleared only when its chain is empty; lookups compare length before bytes with the comparator of the table's case mode and hashing folds case in no-case mode; all eight public wrappers hash the key they pass on; the five traversals visit head iff key != NULL and then the whole chain, the iterator advancing exactly once per bucket. Does not decide map semantics over operation histories.",
+        "design_ref": "DESIGN.md section 4, C20",
+    },
 }
